@@ -473,7 +473,9 @@ static FILE *wdev_stream;
 int __real_fsync(int fd);
 int __wrap_fsync(int fd)
 {
-  if(wdev_active && wdev_fsync_fails) { errno = EIO; return -1; }
+  /* which errno the failing fsync reports: 1 EIO, 2 EINVAL, 3 ENOSYS, 4 ENOTSUP (a failure is a failure) */
+  if(wdev_active && wdev_fsync_fails)
+  { errno = wdev_fsync_fails == 2 ? EINVAL : wdev_fsync_fails == 3 ? ENOSYS : wdev_fsync_fails == 4 ? ENOTSUP : EIO; return -1; }
   return __real_fsync(fd);
 }
 FILE *__wrap_fopen(const char *path, const char *mode)
@@ -1120,7 +1122,7 @@ static int run_line(char *line)
   }
   if(n == 5 && IS("wdev"))
   {
-    wdev_cap = parse_num(tok[1]); wdev_fsync_fails = parse_num(tok[2]) != 0;
+    wdev_cap = parse_num(tok[1]); wdev_fsync_fails = (int)parse_num(tok[2]);
     wdev_close_fails = parse_num(tok[3]) != 0; wdev_open_fails = parse_num(tok[4]) != 0;
     r_unit(); return 0;
   }
@@ -1231,6 +1233,10 @@ int main(int argc, char **argv)
     rewind(sf);
   }
 #endif
+  if(getenv("DRV_NOFILE"))                       /* a process that may hold only so many descriptors */
+  {
+    struct rlimit nf; getrlimit(RLIMIT_NOFILE, &nf); nf.rlim_cur = (rlim_t)atol(getenv("DRV_NOFILE")); setrlimit(RLIMIT_NOFILE, &nf);
+  }
   if(getenv("DRV_CLOSE_STDIN")) close(0);      /* a process started with standard input closed: descriptor 0 is free */
   while((len = getline(&line, &cap, sf)) >= 0)
   {
